@@ -36,6 +36,7 @@ namespace vf
       bool scripted_veto = false;  // grammar has bool actions placed where vetoing is sound
       bool scripted_throw = false;
       int maxlen_quick = 5, maxlen_thorough = 7;
+      std::vector< std::string > extra;  // explicit additional inputs
       std::vector< cfg_entry > cfgs;
    };
 
@@ -308,6 +309,9 @@ namespace vf
             if( p == "MODEL" ) {
                p = prop;  // a verdict that contradicts the formalism belongs to the property this corpus was generated for
             }
+            if( prop == "C09" && p == "C05" && v.sig.rfind( "raise-identity", 0 ) == 0 ) {
+               p = prop;  // "raises the same global failures as that combination"
+            }
             if( p == prop ) {
                all_ok = false;
                sink( v.sig, case_json( ge, c, cf.name ), "[" + ge.name + " cfg " + cf.name + " input '" + show( c.input ) + "'] " + v.detail + "\n grammar: " + ge.pretty );
@@ -427,6 +431,15 @@ namespace vf
                   }
                }
             }
+         }
+         for( const std::string& x : ge.extra ) {
+            if( R.failures_total != fails_before ) {
+               break;
+            }
+            case_t c;
+            c.input = x;
+            c.slots.resize( std::size_t( ge.nslots ) );
+            run_case( ge, g, reg, c, prop, R, sink_direct );
          }
          if( R.failures_total != fails_before ) {
             continue;
